@@ -136,6 +136,10 @@ type Step struct {
 	// and has no effect in the model. Sequential histories only (nested read latches).
 	HasPeek bool
 	Peek    uint32
+	// AlsoKey (SInsertKey of a fresh key only): the row callback ends with SetKey(AlsoKey) on the new
+	// row; InsertKey queues its own key AFTER the callback, so the row ends up with Key and AlsoKey
+	// must not resolve.
+	AlsoKey string
 }
 
 // StepResult is what the real collection answered for a step.
@@ -188,6 +192,9 @@ func (s *Schema) renderStep(st Step) string {
 	}
 	if st.HasPeek {
 		fmt.Fprintf(&b, "+peek@%d", st.Peek)
+	}
+	if st.AlsoKey != "" {
+		fmt.Fprintf(&b, "+setKey(%q)", st.AlsoKey)
 	}
 	if st.Fail {
 		b.WriteString("!fail")
@@ -327,7 +334,11 @@ func (m *Model) CheckAndApply(t TxnSpec, res []StepResult, committed bool) (*Txn
 			inserted[r.Offset] = true
 			stores := st.Stores
 			if st.Kind != SInsert {
-				stores = append(append([]Store{}, stores...), Store{Col: m.Sch.Key, Val: Value{S: st.Key}})
+				stores = append([]Store{}, stores...)
+				if st.AlsoKey != "" {
+					stores = append(stores, Store{Col: m.Sch.Key, Val: Value{S: st.AlsoKey}})
+				}
+				stores = append(stores, Store{Col: m.Sch.Key, Val: Value{S: st.Key}})
 			}
 			writes = append(writes, pending{r.Offset, stores})
 		case SQueryKey:
